@@ -251,9 +251,11 @@ template <> struct KindOf<ram::UserDefinedAggregator> { static constexpr int k =
 template <class T, class U> const T* as(const U& u) { return u.kind == KindOf<T>::k ? static_cast<const T*>(&u) : nullptr; }
 template <class T, class U> bool isA(const U& u) { return u.kind == KindOf<T>::k; }
 struct Node; struct Context {};
-struct Shadow { const Node* getInit() const; };
+/* hides souffle::fatal (tinyformat/iostream): reaching it is a trap, which the harness reports */
+[[noreturn]] inline void fatal(const char*, ...) { __builtin_trap(); }
+struct Shadow { const Node* getInit() const { return nullptr; } };
 struct Engine {
-    RamDomain execute(const Node*, Context&);
+    RamDomain execute(const Node*, Context&) { __builtin_trap(); }
     RamDomain initValue(const ram::Aggregator& aggregator, const Shadow& shadow, Context& ctxt);
 };
 /* ---- verbatim from src/interpreter/Engine.cpp ---- */
@@ -465,8 +467,13 @@ def build_checks(g):
     return checks
 
 
+def _cells(text, offs):
+    """a[k] / b[k] / c[k] / e[k] / t[k] -> IN[offset + k]: constant indices into one global array (no pointer checks needed)"""
+    return re.sub(r"\b([abcet])\[(\d+)\]", lambda m: "IN[%d]" % (offs[m.group(1)] + int(m.group(2))), text)
+
+
 def checks_header(checks):
-    out = ["/* generated: checks shared by the CBMC harness and the native replay driver */"]
+    out = ["/* generated: checks shared by the CBMC harness and the native replay driver */", "uint32_t IN[16];"]
     protos = set()
     for c in checks:
         for m in re.finditer(r"\b(k[a-z]+_\w+?)\(", "\n".join(c.body)):
@@ -474,10 +481,12 @@ def checks_header(checks):
     for p in sorted(protos):
         out.append("uint32_t %s();" % p)
     for c in checks:
-        out.append("static void chk_%s(const uint32_t* IN) {\n  %s\n}" % (c.cid, "\n  ".join(c.body)))
+        n3 = c.nin // 3
+        offs = {"a": 0, "b": n3, "c": 2 * n3, "e": 0, "t": c.meta.get("_m", 0)}
+        body = [l for l in c.body if not l.startswith("const uint32_t *")]
+        out.append("static void chk_%s(void) {\n  %s\n}" % (c.cid, _cells("\n  ".join(body), offs)))
         for v, (dom, key) in c.doms.items():
-            arrs = "const uint32_t *a = IN, *b = IN + %d, *c = IN + %d, *e = IN, *t = IN + %d;" % (c.nin // 3, 2 * (c.nin // 3), c.meta.get("_m", 0))
-            out.append("static int dom_%s_%s(const uint32_t* IN) { %s (void)a; (void)b; (void)c; (void)e; (void)t; return %s; }" % (c.cid, v.replace("-", "_"), arrs, dom))
+            out.append("static int dom_%s_%s(void) { return %s; }" % (c.cid, v.replace("-", "_"), _cells(dom, offs)))
     return "\n".join(out) + "\n"
 
 
@@ -493,10 +502,9 @@ uint32_t nondet_u32(void);
 @INDECL@
 #include "c02_checks_cbmc.h"
 int main(void) {
-  uint32_t IN[@NIN@];
 @INASSIGN@
-  __CPROVER_assume(dom_@CID@_@VAR@(IN));
-  chk_@CID@(IN);
+  __CPROVER_assume(dom_@CID@_@VAR@());
+  chk_@CID@();
 #ifdef WITNESS
   __CPROVER_assert(0, "witness");
 #endif
@@ -509,23 +517,24 @@ DRIVER = r'''
 #include <stdlib.h>
 #include <string.h>
 #include "c24_spec.h"
+/* referenced by header-level destructors in the translated C; only the generated-C build lacks it */
+__attribute__((weak)) void _ZdlPv(void* p) { free(p); }
 static uint32_t khash; static int bad; static int verbose;
 static uint32_t krec(uint32_t v) { khash = khash * 16777619u ^ v; return v; }
 #define K(x) krec((uint32_t)(x))
 #define CHECK(c, msg) do { if (!(c)) { bad = 1; if (verbose) printf("CHECK-FAILED: %s\n", msg); } } while (0)
 #include "c02_checks.h"
-typedef void (*chk_t)(const uint32_t*); typedef int (*dom_t)(const uint32_t*);
+typedef void (*chk_t)(void); typedef int (*dom_t)(void);
 static const struct { const char* cid; const char* var; int nin; chk_t chk; dom_t dom; } T[] = { @TABLE@ };
 static const uint32_t BV[] = { @BV@ };
 #define NBV (sizeof(BV) / sizeof(BV[0]))
 int main(int argc, char** argv) {
-  uint32_t IN[16] = {0};
   if (argc >= 4 && !strcmp(argv[1], "one")) {
     verbose = 1;
     for (unsigned k = 0; k < sizeof(T) / sizeof(T[0]); k++) if (!strcmp(T[k].cid, argv[2]) && !strcmp(T[k].var, argv[3])) {
       for (int i = 0; i < T[k].nin && 4 + i < argc; i++) IN[i] = (uint32_t)strtoul(argv[4 + i], 0, 0);
-      if (!T[k].dom(IN)) { printf("outside the domain of the obligation\n"); return 0; }
-      T[k].chk(IN);
+      if (!T[k].dom()) { printf("outside the domain of the obligation\n"); return 0; }
+      T[k].chk();
       if (bad) { printf("MISMATCH\n"); return 3; }
       printf("all checks hold for this input\n"); return 0;
     }
@@ -535,8 +544,8 @@ int main(int argc, char** argv) {
   for (unsigned k = 0; k < sizeof(T) / sizeof(T[0]); k++) {
     for (int it = 0; it < 400; it++) {
       for (int i = 0; i < T[k].nin; i++) { s = s * 1103515245u + 12345u; IN[i] = (s >> 30) ? BV[(s >> 8) % NBV] : ((s >> 8) ^ (s << 11)); }
-      if (!T[k].dom(IN)) continue;
-      khash = 2166136261u; bad = 0; T[k].chk(IN);
+      if (!T[k].dom()) continue;
+      khash = 2166136261u; bad = 0; T[k].chk();
       printf("%s/%s %d %x\n", T[k].cid, T[k].var, it, khash);
     }
   }
